@@ -6,8 +6,11 @@ import json, os, subprocess, sys
 rd = sys.argv[1]; earlier = sys.argv[2:]
 props = [json.loads(l) for l in open('/verif/properties.jsonl')]
 os.makedirs(rd, exist_ok=True)
+only = os.environ.get('VERIF_ONLY', '').split()
 for p in props:
     pid = p['id']; wt = f'{rd}/{pid}'
+    if only and pid not in only:
+        continue
     if not os.path.isdir(wt):
         subprocess.run(['git', '-C', '/repo', 'worktree', 'add', '--detach', wt, 'HEAD'], check=True, capture_output=True)
     prev = []
